@@ -920,7 +920,13 @@ func (e *Engine) initIntrinsics() {
 	I["marker:pubkey.Verify"] = func(e *Engine, a []Value, pos token.Pos, fn *ssa.Function) Value {
 		isAuthor := e.valEq(&IfaceV{[]IfaceAlt{{G: tb.True, T: e.marker("pubkey"), V: a[0]}}}, pubkey(e, tb.True))
 		e.verifyCalls++
-		return &TupleV{[]Value{tb.And(isAuthor, cr(e, "sig_valid")), e.zero(errT)}}
+		// the signature verifies under the author's key iff sig_valid, under the OTHER key iff sig_by_other
+		// (a forger can always sign with a key of its own)
+		byOther := tb.False
+		if t, ok := e.crypto["sig_by_other"]; ok {
+			byOther = t
+		}
+		return &TupleV{[]Value{tb.Ite(isAuthor, cr(e, "sig_valid"), byOther), e.zero(errT)}}
 	}
 	I["github.com/libp2p/go-libp2p/core/crypto.MarshalPublicKey"] = func(e *Engine, a []Value, pos token.Pos, fn *ssa.Function) Value {
 		return &TupleV{[]Value{e.stringToBytes(e.str("KEY"), types.NewSlice(types.Typ[types.Uint8])), e.zero(errT)}}
